@@ -5,7 +5,8 @@
 // truncate at every message boundary and at seeded byte offsets) between the library client and a REAL
 // library server; a scripted raw-TCP HTTP server (terminating chunk delayed or withheld); the real
 // StdioServer as a child process killed / stopped / exiting at each point plus a scripted stdio child for
-// byte-level control; context cancellation and deadlines at seeded instants; yield-controlled schedules
+// byte-level control and scripted stdio servers that are process trees (helpers that inherit the pipes and
+// outlive the server process, proctree.go); context cancellation and deadlines at seeded instants; yield-controlled schedules
 // for the three known races; and the server side with peers that vanish.
 package main
 
@@ -41,6 +42,9 @@ func batches() []batch {
 	}
 	for _, g := range []string{"signals", "script", "cancel"} {
 		out = append(out, batch{"stdio|" + g})
+	}
+	for _, d := range treeDies {
+		out = append(out, batch{"stdiotree|" + d})
 	}
 	out = append(out, batch{"ssedone|scripted"}, batch{"ssedone|proxy"})
 	for _, k := range []kit.Kind{kit.SJSON, kit.SSSE, kit.LSSE} {
@@ -193,6 +197,8 @@ func child() {
 			}
 			return "1"
 		})
+	case "stdiotree":
+		stdioTreeBatch(rep, parts[1], rng, thorough, next)
 	case "ssedone":
 		sseDoneBatch(rep, parts[1])
 	case "sched":
@@ -247,12 +253,19 @@ func main() {
 	case "c08-stdio-script":
 		stdioScriptChild()
 		return
+	case "c08-stdio-tree":
+		stdioTreeChild()
+		return
+	case "c08-stdio-helper":
+		stdioTreeHelper()
+		return
 	case "c08":
 		child()
 		return
 	}
 	r := vh.NewRun("C08", "fault_enumeration")
 	bs := batches()
+	treeRun := fmt.Sprintf("c08t%d", os.Getpid())
 	sem := make(chan struct{}, 8)
 	var wg sync.WaitGroup
 	for _, b := range bs {
@@ -264,7 +277,7 @@ func main() {
 			skip := 0
 			for attempt := 0; attempt < 6; attempt++ {
 				tag := strings.NewReplacer("|", "_", ":", "_").Replace(b.Name) + fmt.Sprintf("-%d", attempt)
-				res := r.SpawnChild("c08", tag, nil, []string{"C08_BATCH=" + b.Name, "C08_SEED=" + strconv.FormatInt(r.Seed, 10), "C08_TIER=" + r.Tier, "C08_SKIP=" + strconv.Itoa(skip)}, nil, 14*time.Minute)
+				res := r.SpawnChild("c08", tag, nil, []string{"C08_BATCH=" + b.Name, "C08_SEED=" + strconv.FormatInt(r.Seed, 10), "C08_TIER=" + r.Tier, "C08_SKIP=" + strconv.Itoa(skip), treeRunEnv + "=" + treeRun}, nil, 14*time.Minute)
 				cr := r.Merge(res.Stdout())
 				r.Count("children", 1)
 				if cr.Done {
@@ -284,7 +297,7 @@ func main() {
 					map[string]interface{}{"case": last, "crash": vh.CrashLine(stderr), "first_library_frame": vh.FirstLibFrame(stderr), "stderr_head": clip(stderr, 2500)})
 				// resume after the case that crashed (batches that announce case indices)
 				n := countCases(res.Stdout())
-				if n <= 0 || !(strings.HasPrefix(b.Name, "http|") || strings.HasPrefix(b.Name, "noctx|") || strings.HasPrefix(b.Name, "cancel|") || strings.HasPrefix(b.Name, "stdio|")) {
+				if n <= 0 || !(strings.HasPrefix(b.Name, "http|") || strings.HasPrefix(b.Name, "noctx|") || strings.HasPrefix(b.Name, "cancel|") || strings.HasPrefix(b.Name, "stdio|") || strings.HasPrefix(b.Name, "stdiotree|")) {
 					return
 				}
 				skip += n
@@ -292,6 +305,13 @@ func main() {
 		}(b)
 	}
 	wg.Wait()
+	// helper processes of the process-tree servers that a crashed batch may have left behind
+	if killed, left := killTagged(treeRun+"-", true); killed > 0 || left > 0 {
+		r.Count("tree_helper_processes_removed_by_final_sweep", int64(killed))
+		if left > 0 {
+			r.Inconclusive(fmt.Sprintf("%d helper processes of the process-tree servers could not be removed", left))
+		}
+	}
 	// non-vacuity: the workload must have exercised the property
 	r.Require(r.Counter("faults_delivered") >= 200, "only %d faults were delivered", r.Counter("faults_delivered"))
 	r.Require(r.Counter("errors_returned") > 0 && r.Counter("values_complete_answer") > 0 && r.Counter("ctx_errors_returned") > 0, "outcome classes missing: errors=%d values=%d ctx-errors=%d", r.Counter("errors_returned"), r.Counter("values_complete_answer"), r.Counter("ctx_errors_returned"))
@@ -304,7 +324,10 @@ func main() {
 		"Close racing a stalled, still establishing call: only %d classes measured, %d stalls reached, %d times the peer continued after Close", r.Counter("closerace_classes_measured"), r.Counter("closerace_stalls_reached"), r.Counter("closerace_peer_continued_after_close"))
 	r.Require(r.Counter("spawnrace_classes_measured") >= 20 && r.Counter("spawnrace_windows_reached") >= 120 && r.Counter("spawnrace_children_spawned") >= 40 && r.Counter("spawnrace_dials_held") >= 80,
 		"Close / cancel racing the creation of the child process / the TCP connect: only %d classes measured, %d windows reached, %d children spawned, %d connects held", r.Counter("spawnrace_classes_measured"), r.Counter("spawnrace_windows_reached"), r.Counter("spawnrace_children_spawned"), r.Counter("spawnrace_dials_held"))
-	r.Finish("cases = (client kind in {S-json, S-sse, L-sse (legacy), stdio}) x (fault kind in {close, rst, stall, truncate; kill -9 / SIGTERM / exit / SIGSTOP / close-stdout for stdio; cancel, deadline; delayed / withheld terminating chunk}) x (point: every message boundary of the exchange - before the request is forwarded, after the request, after the response headers / the 202, between SSE events, before the final event, before the terminating chunk, on the legacy stream before / after the endpoint event, while calls are pending, before / after the answer event; stdio: before the first call, while pending, between calls, before / inside / after the response line - exhaustively; byte offsets inside request, response head, body / event: first byte, last byte and seeded samples) x pending calls in {1, 2, 8}, for target = the call, the Initialize handshake, and the client's listening stream; plus yield-controlled schedules of the three known races and the server side (N, 2N peers with listening streams, running handlers and pending server requests vanish by close / FIN / RST). Oracle per call: returns within 10 s of the fault (else goroutine dump must show it parked in the library), outcome is an error or the call's own complete answer (nonce + digest + length), context errors for cancellation; per case: Close returns, pending tables empty, and goroutines with library frames / persistConn loops / fds / child processes at quiescence do not grow case after case of the same class. Distinct = (kind, target, fault@point, pending count, outcome class) with the fault actually delivered. HTTP error answers (errstatus batches): (client kind in {S-json, S-sse, L-sse}) x (operation in {tools/call + tools/list, initialize, notification, open of the listening / event stream, DELETE of TerminateSession, the client's POST of its answer to a server-issued roots/list}) x (answer in {4xx / 5xx with JSON / text / HTML / SSE body framed by Content-Length, chunked, large, to-EOF, empty, chunked-never-finished; response head never finished / no answer at all; 202 / 204 where a result was expected; 200 of the wrong content type; 301..308 redirects ending in an error page; 429 / 5xx with client retries}) given by a gateway (the proxy answers itself), plus the library server's own 404 (session terminated on the server, unknown path) and 400 (session id dropped). Per class: baseline, n operations + Close, 2n more + Close; half of the callers never cancel their context. Oracle: each operation returns, never with a value that is not its own answer; pending table empty; goroutines with library frames / persistConn loops / fds / connections still seen open by the proxy must not be above the previous level both after n and after 2n more (and still after a longer wait). A class counts only when all its error answers reached the client. Close racing a call that is still establishing something (closerace batches): (client kind in {S-json, S-sse, L-sse, stdio}) x (the exchange is stalled - held by the relay / by a scripted child, not ended - at each message boundary and inside each unit of: Initialize (legacy: GET of the event stream before it is forwarded / before its response head / inside the head, the stream before / inside the endpoint event, the initialize POST before it is forwarded / before its 202, the stream before / inside the initialize answer, the POST of notifications/initialized before it is forwarded / before its 202; Streamable: the initialize POST before it is forwarded / before / inside / after its response head / inside its body, the notification's POST before it is forwarded / before its 202; stdio: before / inside the child's answer line, child dying of SIGINT / ignoring it / ignoring SIGINT + SIGPIPE and staying after the end of its stdin), the first ordinary call (the same points of its POST, between its SSE events, on the legacy stream before / inside its answer) and the open of the Streamable listening stream (GET before it is forwarded / before / inside / after its head)) x (caller's context: context.Background() / a deadline 30 min away that nobody cancels). While stalled: Close; then the peer continues (the stall is released, the real server answers, streams it opens stay open; nothing is cut by the harness). Per class: baseline, n cycles, 2n more. Oracle: the stalled call returns by Close or at the latest once the peer continued (10 s watchdog + goroutine dump), with an error or its own complete answer; Close returns; pending table empty; client-side goroutines with library frames / persistConn loops / fds / children / connections the relay still sees open must not be above the previous level both after n and after 2n more (and still after a longer wait). An Initialize that returns success after Close (Streamable: Close is not terminal, the client object is reusable) leaves a live client that the harness closes once more - counted as closerace_initialize_succeeded_after_close. A class counts only when every cycle reached its stall. Close / cancel racing the CREATION of what a call needs (spawnrace batches): stdio - (the end of the client: Close with callers on context.Background() / cancellation of the caller's context followed by Close) x (window: before the first call; a seeded instant 0 .. 4 ms after the first call began; while the fork/exec of the server process is in progress - the harness holds syscall.ForkLock for reading so that exec.Cmd.Start blocks at the fork (seen in the goroutine dump: startProcess -> syscall.forkExec), Close runs to its end, then the lock is released; the same set-up with Close landing at the release of the lock / the moment GetProcessID becomes non-zero / up to 400 us later, i.e. right after Start returned, around the first byte written; while the child exists and is still starting up - it sleeps before reading its stdin and goes on while Close is at work) x (child dies of SIGINT / ignores SIGINT / ignores SIGINT + SIGPIPE and stays after the end of its stdin), n clients per round under one fork lock; Streamable / legacy - the first request that has to dial (initialize POST, notification POST, GET of the event / listening stream, first tools/call) goes through a user-level HTTPReqHandler whose transport blocks in DialContext: Close while the TCP connect is in progress, then the connect completes (dialer ignoring / honouring its context, alternating). Per class: baseline, n cycles, 2n more. Oracle: the first call returns once nothing the harness holds is in its way (10 s watchdog + goroutine dump; a cancelled call with a sleeping child must return without the child moving), with an error or its own complete answer; Close returns; pending table empty; children of this process (by pid from /proc, zombies included - the pids the library reported are followed up individually in the witness), fds, client-side goroutines with library frames, connections (also those the relay sees) must not be above the previous level both after n and after 2n more (and still after a longer wait). A class counts only when every cycle reached its window.",
+	r.Require(r.Counter("tree_server_deaths_observed") >= 50 && r.Counter("tree_cases_helper_held_stdout_at_death") >= 30 && r.Counter("tree_cases_calls_returned_while_stdout_still_held") >= 15 && r.Counter("tree_calls_judged") >= 100,
+		"stdio servers that are process trees: only %d server deaths observed, %d with a helper holding the server's stdout, %d where the calls had returned while it was still held, %d calls judged",
+		r.Counter("tree_server_deaths_observed"), r.Counter("tree_cases_helper_held_stdout_at_death"), r.Counter("tree_cases_calls_returned_while_stdout_still_held"), r.Counter("tree_calls_judged"))
+	r.Finish("cases = (client kind in {S-json, S-sse, L-sse (legacy), stdio}) x (fault kind in {close, rst, stall, truncate; kill -9 / SIGTERM / exit / SIGSTOP / close-stdout for stdio; cancel, deadline; delayed / withheld terminating chunk}) x (point: every message boundary of the exchange - before the request is forwarded, after the request, after the response headers / the 202, between SSE events, before the final event, before the terminating chunk, on the legacy stream before / after the endpoint event, while calls are pending, before / after the answer event; stdio: before the first call, while pending, between calls, before / inside / after the response line - exhaustively; byte offsets inside request, response head, body / event: first byte, last byte and seeded samples) x pending calls in {1, 2, 8}, for target = the call, the Initialize handshake, and the client's listening stream; plus yield-controlled schedules of the three known races and the server side (N, 2N peers with listening streams, running handlers and pending server requests vanish by close / FIN / RST). Oracle per call: returns within 10 s of the fault (else goroutine dump must show it parked in the library), outcome is an error or the call's own complete answer (nonce + digest + length), context errors for cancellation; per case: Close returns, pending tables empty, and goroutines with library frames / persistConn loops / fds / child processes at quiescence do not grow case after case of the same class. Distinct = (kind, target, fault@point, pending count, outcome class) with the fault actually delivered. HTTP error answers (errstatus batches): (client kind in {S-json, S-sse, L-sse}) x (operation in {tools/call + tools/list, initialize, notification, open of the listening / event stream, DELETE of TerminateSession, the client's POST of its answer to a server-issued roots/list}) x (answer in {4xx / 5xx with JSON / text / HTML / SSE body framed by Content-Length, chunked, large, to-EOF, empty, chunked-never-finished; response head never finished / no answer at all; 202 / 204 where a result was expected; 200 of the wrong content type; 301..308 redirects ending in an error page; 429 / 5xx with client retries}) given by a gateway (the proxy answers itself), plus the library server's own 404 (session terminated on the server, unknown path) and 400 (session id dropped). Per class: baseline, n operations + Close, 2n more + Close; half of the callers never cancel their context. Oracle: each operation returns, never with a value that is not its own answer; pending table empty; goroutines with library frames / persistConn loops / fds / connections still seen open by the proxy must not be above the previous level both after n and after 2n more (and still after a longer wait). A class counts only when all its error answers reached the client. Close racing a call that is still establishing something (closerace batches): (client kind in {S-json, S-sse, L-sse, stdio}) x (the exchange is stalled - held by the relay / by a scripted child, not ended - at each message boundary and inside each unit of: Initialize (legacy: GET of the event stream before it is forwarded / before its response head / inside the head, the stream before / inside the endpoint event, the initialize POST before it is forwarded / before its 202, the stream before / inside the initialize answer, the POST of notifications/initialized before it is forwarded / before its 202; Streamable: the initialize POST before it is forwarded / before / inside / after its response head / inside its body, the notification's POST before it is forwarded / before its 202; stdio: before / inside the child's answer line, child dying of SIGINT / ignoring it / ignoring SIGINT + SIGPIPE and staying after the end of its stdin), the first ordinary call (the same points of its POST, between its SSE events, on the legacy stream before / inside its answer) and the open of the Streamable listening stream (GET before it is forwarded / before / inside / after its head)) x (caller's context: context.Background() / a deadline 30 min away that nobody cancels). While stalled: Close; then the peer continues (the stall is released, the real server answers, streams it opens stay open; nothing is cut by the harness). Per class: baseline, n cycles, 2n more. Oracle: the stalled call returns by Close or at the latest once the peer continued (10 s watchdog + goroutine dump), with an error or its own complete answer; Close returns; pending table empty; client-side goroutines with library frames / persistConn loops / fds / children / connections the relay still sees open must not be above the previous level both after n and after 2n more (and still after a longer wait). An Initialize that returns success after Close (Streamable: Close is not terminal, the client object is reusable) leaves a live client that the harness closes once more - counted as closerace_initialize_succeeded_after_close. A class counts only when every cycle reached its stall. Close / cancel racing the CREATION of what a call needs (spawnrace batches): stdio - (the end of the client: Close with callers on context.Background() / cancellation of the caller's context followed by Close) x (window: before the first call; a seeded instant 0 .. 4 ms after the first call began; while the fork/exec of the server process is in progress - the harness holds syscall.ForkLock for reading so that exec.Cmd.Start blocks at the fork (seen in the goroutine dump: startProcess -> syscall.forkExec), Close runs to its end, then the lock is released; the same set-up with Close landing at the release of the lock / the moment GetProcessID becomes non-zero / up to 400 us later, i.e. right after Start returned, around the first byte written; while the child exists and is still starting up - it sleeps before reading its stdin and goes on while Close is at work) x (child dies of SIGINT / ignores SIGINT / ignores SIGINT + SIGPIPE and stays after the end of its stdin), n clients per round under one fork lock; Streamable / legacy - the first request that has to dial (initialize POST, notification POST, GET of the event / listening stream, first tools/call) goes through a user-level HTTPReqHandler whose transport blocks in DialContext: Close while the TCP connect is in progress, then the connect completes (dialer ignoring / honouring its context, alternating). Per class: baseline, n cycles, 2n more. Oracle: the first call returns once nothing the harness holds is in its way (10 s watchdog + goroutine dump; a cancelled call with a sleeping child must return without the child moving), with an error or its own complete answer; Close returns; pending table empty; children of this process (by pid from /proc, zombies included - the pids the library reported are followed up individually in the witness), fds, client-side goroutines with library frames, connections (also those the relay sees) must not be above the previous level both after n and after 2n more (and still after a longer wait). A class counts only when every cycle reached its window. Stdio servers that are PROCESS TREES (stdiotree batches): the server process (scripted) first starts helpers that inherit its descriptors and outlive it - configurations {one helper that sleeps holding stdout / stdin+stdout+stderr / only stderr / only stdin; one that also writes log lines and notifications to stdout and stderr now and then; a helper in its own session / its own process group; /bin/sh as launcher with a sleeping grand-child; /bin/sh writing in a loop with grand-children; three mixed helpers; none} - and then the SERVER process itself (exits 0 | exits non-zero | is killed with SIGKILL) at each message boundary {before the initialize answer, inside the initialize answer line, between the initialize answer and the next request (calls issued to the dead server), with 1..n calls read and none answered, inside the answer line of one of n calls, after one complete answer with n-1 calls pending}; callers on a 6 s deadline or on a context nobody cancels. The harness waits until the server process is a zombie or gone in /proc, verifies through /proc/<pid>/fd that the helpers hold the very pipes, then judges: every pending call returns (10 s watchdog after the death was seen + goroutine dump showing it parked in a library frame = blocked-forever; ending only with its own deadline error although the death was seen >= 3 s before that deadline = returns-only-at-deadline), a value only for the one call whose complete answer the server wrote and only that answer; then Close with the helpers still alive, pending table empty, leak levels (goroutines, fds, children incl. the zombie) per class; the helpers are killed by the harness (found by an environment tag in /proc) and are never counted against the library. A case counts only when the death was seen and the helpers were alive and holding what the configuration says.",
 		[]string{
 			"byte offsets and cancellation instants are sampled (seeded, fixed counts); message boundaries x fault kinds x transports x pending counts are enumerated completely",
 			"'during connect' is approximated by holding the request inside the proxy (TCP accept is done by the kernel)",
@@ -315,6 +338,7 @@ func main() {
 			"HTTP error answers: an answer whose body / head never ends is only given to operations that run under the caller's deadline (the client's POST of an answer to a server-issued request runs on a detached 30 s context by design and is excluded from those); 2xx answers to legacy-transport POSTs are acceptances, not error answers, and are not injected there",
 			"the relay propagates the client's FIN / RST to the server side while an answer is awaited or relayed, as a plain TCP path does; 'connections seen by the peer' are the relay's open connections after Close and CloseIdleConnections",
 			"Close racing a stalled call: Close is not among the events the statement lets end a call, so a stalled call whose own connection and context are intact may return only when the peer continues, and with its complete answer; the race is set up by stalling the peer (the call is parked inside the exchange when Close runs), not by interleaving Close with the first statements of the call",
+			"process-tree stdio servers: helpers are started by the server before it reads its first request and are removed by the harness at the end of the case (at most 45 s of life otherwise); a helper that writes only writes whole lines (log text, notifications), never answers to pending ids; 'exits at any point' is driven at message boundaries and at seeded cuts inside the answer line, not at every byte",
 			"the 10 s / 12 s watchdogs are bounded-progress restatements of 'promptly' / 'returns'; a watchdog alone yields INCONCLUSIVE",
 		})
 }
